@@ -166,6 +166,13 @@ func jsonEqual(a, b any) bool {
 	}
 }
 
+func fmtT(t *time.Time) string {
+	if t == nil {
+		return "-"
+	}
+	return t.Format(time.RFC3339Nano)
+}
+
 // CheckRestartState checks the consistency part of C10 on a freshly restarted runner
 func CheckRestartState(sys *core.Sys, specs []gen.PipeSpec, wantIDs []string, label string, find func(sig, format string, args ...any), sit func(s string)) core.View {
 	v := sys.Snapshot(-1)
@@ -174,6 +181,16 @@ func CheckRestartState(sys *core.Sys, specs []gen.PipeSpec, wantIDs []string, la
 		j := &v.Jobs[i]
 		got[j.ID]++
 		sit(fmt.Sprintf("restarted job completed=%v canceled=%v started=%v", j.Completed, j.Canceled, j.Start != nil))
+		// created <= start <= end and task start <= task end also for the jobs that the restart itself ended (seed C15-n: an
+		// interrupted job gets an invented end time that lies before its start)
+		if (j.Start != nil && j.Start.Before(j.Created)) || (j.End != nil && j.Start != nil && j.End.Before(*j.Start)) || (j.End != nil && j.End.Before(j.Created)) {
+			find("C15:timestamps-out-of-order-after-restart", "%s: job %s of %s is reported after the restart with created=%v start=%v end=%v (completed=%v canceled=%v): created <= start <= end does not hold", label, j.ID, j.Pipeline, j.Created.Format(time.RFC3339Nano), fmtT(j.Start), fmtT(j.End), j.Completed, j.Canceled)
+		}
+		for _, t := range j.Tasks {
+			if t.Start != nil && t.End != nil && t.End.Before(*t.Start) {
+				find("C15:timestamps-out-of-order-after-restart", "%s: task %s of job %s is reported after the restart with start=%v end=%v", label, t.Name, j.ID, fmtT(t.Start), fmtT(t.End))
+			}
+		}
 		if !j.Terminal() {
 			find("C10:non-terminal-job-after-restart", "%s: job %s of %s is neither completed nor canceled after the restart (started=%v): it is a ghost that holds capacity", label, j.ID, j.Pipeline, j.Start != nil)
 		}
